@@ -12,10 +12,14 @@ import (
 	"golang.org/x/tools/go/ssa"
 )
 
+// schedStep: when thread From reaches sync point Pos for the N-th time since it was last
+// switched in, the baton goes to thread To (native replay imposes exactly these switches).
 type schedStep struct {
-	Thread int    `json:"thread"`
-	Op     string `json:"op"`
-	Pos    string `json:"pos"`
+	From string `json:"from"`
+	Pos  string `json:"pos"`
+	N    int    `json:"n"`
+	To   string `json:"to"`
+	Op   string `json:"op"`
 }
 
 type mailbox struct {
@@ -40,6 +44,7 @@ type thread struct {
 	sends    []*sendReq
 	started  bool
 	isMain   bool
+	visits   map[string]int
 }
 
 type pathResult struct {
@@ -83,6 +88,20 @@ func (in *Interp) spawn(fr *frame, fn value, args []value, pos token.Pos, name s
 	t := &thread{id: len(in.threads), name: name, wake: make(chan bool)}
 	if name == "" {
 		t.name = fmt.Sprintf("go@%s", in.where(fr, pos))
+	}
+	base, k := t.name, 1
+	for {
+		dup := false
+		for _, o := range in.threads {
+			if o.name == t.name {
+				dup = true
+			}
+		}
+		if !dup {
+			break
+		}
+		k++
+		t.name = fmt.Sprintf("%s#%d", base, k)
 	}
 	in.threads = append(in.threads, t)
 	done := in.pathDone
@@ -133,6 +152,11 @@ func (in *Interp) spawn(fr *frame, fn value, args []value, pos token.Pos, name s
 // exits). It picks the next thread to run and, if that is another thread, parks the
 // caller until it is chosen again.
 func (in *Interp) reschedule(self *thread, op string, pos token.Pos) {
+	in.rescheduleAt(self, op, pos, "")
+}
+
+func (in *Interp) rescheduleAt(self *thread, op string, pos token.Pos, suffix string) {
+	where := in.syncWhere(op, pos) + suffix
 	var enabled []*thread
 	for _, t := range in.threads {
 		if t.joiner {
@@ -195,7 +219,8 @@ func (in *Interp) reschedule(self *thread, op string, pos token.Pos) {
 	if next == self {
 		return
 	}
-	in.sched = append(in.sched, schedStep{Thread: next.id, Op: "switch:" + op, Pos: in.where(nil, pos)})
+	in.sched = append(in.sched, schedStep{From: self.name, Pos: where, N: self.visits[where], To: next.name, Op: op})
+	next.visits = map[string]int{}
 	in.cur = next
 	next.wake <- true
 	if self.done {
@@ -223,6 +248,7 @@ func (in *Interp) syncOp(fr *frame, desc string, pos token.Pos, pred func() bool
 	th := in.cur
 	if in.liveThreads() == 1 {
 		if pred == nil || pred() {
+			in.visit(th, in.syncWhere(desc, pos))
 			return
 		}
 	}
@@ -230,6 +256,7 @@ func (in *Interp) syncOp(fr *frame, desc string, pos token.Pos, pred func() bool
 		th.blocked = pred
 		th.desc = desc
 	}
+	in.visit(th, in.syncWhere(desc, pos))
 	in.reschedule(th, desc, pos)
 	th.blocked = nil
 	if pred != nil && !pred() {
@@ -282,9 +309,7 @@ func (in *Interp) caseReady(c selCase) bool {
 func (in *Interp) doSelect(fr *frame, cases []selCase, blocking bool, pos token.Pos) (int, value, bool) {
 	th := in.cur
 	// preemption point before looking at the channels
-	if in.liveThreads() > 1 {
-		in.syncOp(fr, "chan-op", pos, nil)
-	}
+	in.syncOp(fr, "chan-op", pos, nil)
 	for {
 		var ready []int64
 		for i, c := range cases {
@@ -380,7 +405,8 @@ func (in *Interp) doSelect(fr *frame, cases []selCase, blocking bool, pos token.
 				th.desc = fmt.Sprintf("chan receive (chan #%d)", cases[0].ch.id)
 			}
 		}
-		in.reschedule(th, th.desc, pos)
+		in.visit(th, in.syncWhere(th.desc, pos)+"/wait")
+		in.rescheduleAt(th, th.desc, pos, "/wait")
 		th.blocked = nil
 		// deregister
 		var doneReq *sendReq
@@ -437,13 +463,11 @@ func (in *Interp) chanRecv(fr *frame, ch *chanV, commaOk bool, pos token.Pos) va
 	return v
 }
 
-func (in *Interp) chanClose(fr *frame, ch *chanV) {
+func (in *Interp) chanClose(fr *frame, ch *chanV, cp token.Pos) {
 	if ch == nil {
 		panic(runtimePanic{"close of nil channel"})
 	}
-	if in.liveThreads() > 1 {
-		in.syncOp(fr, "close", token.NoPos, nil)
-	}
+	in.syncOp(fr, "close", cp, nil)
 	if ch.closed {
 		panic(runtimePanic{"close of closed channel"})
 	}
@@ -488,4 +512,23 @@ func (in *Interp) mutex(p *value) *mutexState {
 		in.mutexes[p] = m
 	}
 	return m
+}
+
+// syncWhere names a synchronisation point the way the native instrumentation does.
+func (in *Interp) syncWhere(op string, pos token.Pos) string {
+	if pos == token.NoPos {
+		switch op {
+		case "exit", "join":
+			return op
+		}
+		return "?" + op
+	}
+	return in.where(nil, pos)
+}
+
+func (in *Interp) visit(th *thread, where string) {
+	if th.visits == nil {
+		th.visits = map[string]int{}
+	}
+	th.visits[where]++
 }
